@@ -229,19 +229,25 @@ class _G:
     self.sg.operators.append(o)
     return len(self.sg.operators) - 1
 
-  def io(self, inputs, outputs, key, in_names, out_names):
+  def io(self, inputs, outputs, key, in_names, out_names, sigorder=None):
     self.sg.inputs = np.array(inputs, dtype=np.int32)
     self.sg.outputs = np.array(outputs, dtype=np.int32)
     sd = s.SignatureDefT()
     sd.signatureKey = key.encode()
     sd.subgraphIndex = self.si
     sd.inputs, sd.outputs = [], []
-    for n, t in zip(in_names, inputs):
+    ins = list(zip(in_names, inputs))
+    outs = list(zip(out_names, outputs))
+    if sigorder == 'rev':
+      # the converter orders signature entries by name, not by position
+      ins.reverse()
+      outs.reverse()
+    for n, t in ins:
       tm = s.TensorMapT()
       tm.name = n.encode()
       tm.tensorIndex = t
       sd.inputs.append(tm)
-    for n, t in zip(out_names, outputs):
+    for n, t in outs:
       tm = s.TensorMapT()
       tm.name = n.encode()
       tm.tensorIndex = t
@@ -664,9 +670,15 @@ def build(ir):
     if not inputs:
       return None
     outputs = [(f'out{k}', handles[h]) for k, h in enumerate(out_handles)]
+    if sub.get('ioorder') == 'rev':
+      # subgraph inputs/outputs listed in the opposite order (e.g. the int32
+      # ids input before the float input)
+      inputs.reverse()
+      outputs.reverse()
     g.io([t for _, t, _ in inputs], [t for _, t in outputs],
          sub.get('key', 'serving_default' if si == 0 else f'sig{si}'),
-         [a for a, _, _ in inputs], [a for a, _ in outputs])
+         [a for a, _, _ in inputs], [a for a, _ in outputs],
+         sub.get('sigorder'))
     out.ops.append(metas)
     out.inputs.append(inputs)
     out.outputs.append(outputs)
